@@ -2,7 +2,7 @@
 
 from __future__ import annotations
 
-from ..execmodel import FullHooks, define_variables, make_session, run_execute
+from ..execmodel import FullHooks, cset, define_variables, make_session, run_execute
 from ..interp import explore
 from ..values import Const, Dct, Lst, NodeV, Obj, Seq, Str, Sym, Tup, tagof
 from .c05 import _prov_nodes
@@ -187,7 +187,8 @@ def rule_server_side(ctx):
     for path, st in run_point_states(prog, Point(False, None, True, True, False, False, False)):
         conn = path.value
         if isinstance(conn, Obj):
-            ok = any(isinstance(v, Ext) and v.dotted == "snowflake.connector.paramstyle" for v in conn.attrs.values())
+            held = list(conn.attrs.values()) + [w for v in conn.attrs.values() if isinstance(v, Obj) and v.kind != "duck" for w in v.attrs.values()]
+            ok = any(isinstance(v, Ext) and v.dotted == "snowflake.connector.paramstyle" for v in held)  # on the connection or a record it owns
     ctx.ob("C08.c", "the connection stores snowflake.connector.paramstyle at construction", ok, "fakesnow/conn.py")
     if not ok:
         ctx.violation("C08.c", "conn", "FakeSnowflakeConnection.__init__", "paramstyle snapshot", "fakesnow/conn.py",
@@ -212,7 +213,7 @@ def rule_executemany(ctx):
         def run(I, shape=shape):
             duck, conn, cur = make_session()
             from ..execmodel import R
-            conn.attrs[R().paramstyle] = Const("qmark")
+            cset(conn, R().paramstyle, Const("qmark"))
             batch = Tup(sets) if shape == "tuple" else OneShot(sets)  # any iterable of rows: a generator / zip(...) can be read once
             return I.call(I.getattr(cur, "executemany"), [Sym("COMMAND", typ="str", truthy=True), batch], {}, None)
 
@@ -249,7 +250,7 @@ def rule_executemany_client_side(ctx):
     def run(I):
         duck, conn, cur = make_session()
         from ..execmodel import R
-        conn.attrs[R().paramstyle] = Const("pyformat")
+        cset(conn, R().paramstyle, Const("pyformat"))
         define_variables(conn, dict(VARS))
         return I.call(I.getattr(cur, "executemany"), [Sym("COMMAND", typ="str", truthy=True), Tup(sets)], {}, None)
 
